@@ -635,8 +635,10 @@ class Driver(object):
         h = zlib.crc32(repr([(s['ev']['kind'], s['ev']['step']['alias'], s['ev']['step']['arg'], s['ev']['step']['body'])
                              for s in beh]).encode()) ^ (self.conc_seed * 2654435761 & 0xffffffff)
         self.beh_hash = h
-        self.conc = Concretisation(h, prefer_mutable=(h % 2 == 1),
-                                   confusable=('arg1', 'arg2') if (h // 2) % 2 == 0 else ())
+        has_mutate = any(s['ev']['step']['kind'] == 'mutate' for s in beh)
+        self.conc = Concretisation(h, prefer_mutable=(h % 2 == 1) or has_mutate,
+                                   confusable=('arg1', 'arg2') if (h // 2) % 2 == 0 else (),
+                                   prefer_shallow_immutable=has_mutate and (h // 64) % 3 == 0)
         self.interrupt_cls = INTERRUPTS[(h // 8) % len(INTERRUPTS)]
         # reserve the special values so that no value token is concretised to something equal to them
         self.conc.map['__subst_value'] = ('substitute', 1)
